@@ -13,4 +13,5 @@ MatchSigs(c) == {}
 
 StepSigs(c) == {}
 WalkSigs(c) == {}
+PersistSigs(c) == {}
 =============================================================================
